@@ -40,6 +40,9 @@ type C11PCycle struct {
 	Action string `json:"action"`
 	Sym    string `json:"sym,omitempty"`
 	Val    string `json:"val,omitempty"`
+	// Foreign (db-session addressing): before this cycle another user of the same store
+	// handle switches it to this session (index + 1; 0 = nobody does)
+	Foreign int `json:"foreign,omitempty"`
 }
 
 type C11Persister struct {
@@ -48,6 +51,9 @@ type C11Persister struct {
 	Initial  []C11Content `json:"initial"`
 	Cycles   []C11PCycle  `json:"cycles"`
 	Flush    bool         `json:"flush"` // WithFlush() on the shared persister
+	// DbSession: sessions are addressed through Persister.WithSession(id) and one fixed key
+	// (the session id lives in the store handle) instead of through the key
+	DbSession bool `json:"db_session,omitempty"`
 }
 
 var c11Syms = []string{"name", "pin", "balance", "iban", "x"}
@@ -88,7 +94,7 @@ func genC11Content(t *rapid.T) C11Content {
 }
 
 func genC11Persister(t *rapid.T) C11Persister {
-	c := C11Persister{Backend: []string{"mem", "fs"}[uniformN(t, 2, "backend")], Flush: chancePct(t, 85, "flush")}
+	c := C11Persister{Backend: []string{"mem", "fs"}[uniformN(t, 2, "backend")], Flush: chancePct(t, 85, "flush"), DbSession: chancePct(t, 35, "dbsession")}
 	n := 2 + uniformN(t, 3, "nsessions")
 	c.Sessions = []string{"alice", "bob", "carol", "dave"}[:n]
 	for i := 0; i < n; i++ {
@@ -96,6 +102,9 @@ func genC11Persister(t *rapid.T) C11Persister {
 	}
 	c.Cycles = genSlice(t, rapid.Custom(func(t *rapid.T) C11PCycle {
 		cy := C11PCycle{Session: uniformN(t, n, "session"), Action: []string{"none", "none", "down", "up"}[uniformN(t, 4, "action")]}
+		if c.DbSession && chancePct(t, 40, "foreign") {
+			cy.Foreign = 1 + uniformN(t, n, "foreignsession")
+		}
 		if cy.Action == "down" {
 			cy.Sym = c11Syms[uniformN(t, len(c11Syms), "sym")]
 			cy.Val = c11Vals[uniformN(t, len(c11Vals), "val")]
@@ -163,7 +172,12 @@ func checkC11Persister(c C11Persister) (o Outcome) {
 	want := make([]string, len(c.Sessions))
 	for i, id := range c.Sessions {
 		st, ca := c.Initial[i].build()
-		if err := persist.NewPersister(store).WithContent(st, ca).Save(id); err != nil {
+		pe0 := persist.NewPersister(store).WithContent(st, ca)
+		key0 := id
+		if c.DbSession {
+			pe0, key0 = pe0.WithSession(id), "state"
+		}
+		if err := pe0.Save(key0); err != nil {
 			o.Discard = "initial-save-fails"
 			return
 		}
@@ -181,8 +195,16 @@ func checkC11Persister(c C11Persister) (o Outcome) {
 			return
 		}
 		id := c.Sessions[cy.Session]
+		key := id
+		if c.DbSession {
+			if cy.Foreign > 0 && cy.Foreign <= len(c.Sessions) {
+				store.SetSession(c.Sessions[cy.Foreign-1]) // someone else works on the store
+			}
+			shared = shared.WithSession(id)
+			key = "state"
+		}
 		var lerr error
-		if p := catchPanic(func() { lerr = shared.Load(id) }); p != nil {
+		if p := catchPanic(func() { lerr = shared.Load(key) }); p != nil {
 			o.Viol = &Violation{Kind: "panic", Msg: fmt.Sprintf("cycle %d: Load(%q) on the shared persister panics: %s", k, id, p.val), Detail: p.stack}
 			return
 		}
@@ -223,7 +245,14 @@ func checkC11Persister(c C11Persister) (o Outcome) {
 		}
 		want[cy.Session] = c11Norm(app.TakeSnapshot(st, ca))
 		var serr error
-		if p := catchPanic(func() { serr = shared.Save(id) }); p != nil {
+		if c.DbSession {
+			// (and may have moved the handle again while this session was being served)
+			if cy.Foreign > 0 && cy.Foreign <= len(c.Sessions) && cy.Action != "none" {
+				store.SetSession(c.Sessions[cy.Foreign-1])
+			}
+			shared = shared.WithSession(id)
+		}
+		if p := catchPanic(func() { serr = shared.Save(key) }); p != nil {
 			o.Viol = &Violation{Kind: "panic", Msg: fmt.Sprintf("cycle %d: Save(%q) on the shared persister panics: %s", k, id, p.val), Detail: p.stack}
 			return
 		}
@@ -240,7 +269,11 @@ func checkC11Persister(c C11Persister) (o Outcome) {
 	// and every session still loads as saved through a persister of its own
 	for i, id := range c.Sessions {
 		pe := persist.NewPersister(store).WithContent(state.NewState(c11FlagCount), cache.NewCache())
-		if err := pe.Load(id); err != nil {
+		keyN := id
+		if c.DbSession {
+			pe, keyN = pe.WithSession(id), "state"
+		}
+		if err := pe.Load(keyN); err != nil {
 			o.Viol = viol("own-load-fails", "session %q does not load at the end: %v", id, err)
 			return
 		}
@@ -257,6 +290,9 @@ func checkC11Persister(c C11Persister) (o Outcome) {
 		o.class("fresh-objects-per-session")
 	}
 	o.class("backend:" + c.Backend)
+	if c.DbSession {
+		o.class("addressed-by-db-session")
+	}
 	return
 }
 
